@@ -69,6 +69,8 @@ class Gen:
             (1, lambda: self.h("elvis") or "%s?.len()" % rng.choice(["null", "$nosuch", self.list_lit(env, d - 1)])),
             (1, lambda: self.h("andor_val") or "(%s and %s)" % (self.t(self.int_(env, d - 1)), self.t(self.int_(env, d - 1)))),
             (1, lambda: self.h("andor_val") or "(%s or %s)" % (self.t(self.int_(env, d - 1)), self.t(self.int_(env, d - 1)))),
+            (1, lambda: self.h("selectCase") or "selectCase(%s)" % ", ".join(self.t(self.bool_(env, d - 1)) for _ in range(rng.randrange(1, 4)))),
+            (1, lambda: self.h("switchCase") or "%s.switchCase(%s)" % (self.t(rng.choice([str(rng.randrange(-1, 4)), "(%s)" % self.int_(env, d - 1)])), ", ".join(self.t(self.int_(env, d - 1)) for _ in range(rng.randrange(1, 4))))),
         ]
         return self.pick(o)
 
@@ -173,7 +175,7 @@ class Gen:
             (2, lambda: self.h("not") or "not %s" % self.t(self.bool_(env, d - 1))),
             (3, lambda: self.h("and") or "(%s and %s)" % (self.t(self.bool_(env, d - 1)), self.t(self.bool_(env, d - 1)))),
             (3, lambda: self.h("or") or "(%s or %s)" % (self.t(self.bool_(env, d - 1)), self.t(self.bool_(env, d - 1)))),
-            (2, lambda: self.h("any") or "%s.%s(%s)" % (self.list_(env, d - 1), rng.choice(["any", "all"]), self.bool_(self.lam_env(env), d - 1))),
+            (2, lambda: self.h("any") or "%s.%s(%s)" % (self.list_(env, d - 1), rng.choice(["any", "all"]), self.t(self.bool_(self.lam_env(env), d - 1)))),
             (1, lambda: rng.choice(["true", "false"])),
         ]
         return self.pick(o)
@@ -381,6 +383,8 @@ def tr(node):
             return "(ETick %s %s)" % (gal.z(pos[0].value), tr(pos[1]))
         if name == "switch" and not pos:
             return "(ESwitch %s)" % gal.lst("(%s, %s)" % (tr(m.source), tr(m.destination)) for m in maps)
+        if name == "selectCase" and not maps:
+            return "(ESelectCase %s)" % gal.lst(tr(a) for a in pos)
         if name == "coalesce" and not maps:
             return "(ECoalesce %s)" % gal.lst(tr(a) for a in pos)
         return "(EUser %s %s %s)" % (gal.s(name), gal.lst(tr(a) for a in pos), kw())
